@@ -896,6 +896,20 @@ class Context(MetadataContextMixin, object):
             for x in metadata.get("log", []):
                 self.log_dict(deepcopy(x))
                 state.metadata["log"].append(deepcopy(x))
+            # a resource whose data can not be obtained (e.g. a failing recipe) is a failed step:
+            # the state is marked as error, so that nothing to the right of it is executed
+            position = resource_query.position
+            state.log_exception(
+                f"Error evaluating resource {resource_query}",
+                traceback=traceback.format_exc(),
+            )
+            state.metadata["status"] = Status.ERROR.value
+            state.metadata["log"][-1]["query"] = self.raw_query
+            state.metadata["log"][-1]["position"] = (
+                None if position is None else position.to_dict()
+            )
+            # what went wrong while the resource was produced (e.g. the log of its recipe)
+            state.metadata["child_log"] = [deepcopy(x) for x in metadata.get("log", [])][-5:]
             self.exception(
                 message=f"Error evaluating resource {resource_query}",
                 traceback=traceback.format_exc(),
